@@ -239,6 +239,12 @@ macro_rules! set_node_state {
              => panic!("Moving a job between kinds"), // if you encounter this from python, the
                                                        // sky must be falling
         }
+        #[cfg(tyberiusprime_pypipegraph2_verif)]
+        crate::verif::log_transition(
+            &$node.job_id,
+            format!("{:?}", $node.state),
+            format!("{:?}", $new_state),
+        );
         $node.state = $new_state;
         $gen.advance();
     };
@@ -944,6 +950,12 @@ impl<T: PPGEvaluatorStrategy> PPGEvaluator<T> {
             for idx in candidates.iter() {
                 debug!("removed leaf ephemeral {}", self.jobs[*idx].job_id);
                 self.dag.remove_node(*idx);
+                #[cfg(tyberiusprime_pypipegraph2_verif)]
+                crate::verif::log_transition(
+                    &self.jobs[*idx].job_id,
+                    format!("{:?}", self.jobs[*idx].state),
+                    "Pruned".to_string(),
+                );
                 self.jobs[*idx].state = JobState::Ephemeral(JobStateEphemeral::FinishedSkipped);
                 ephemerals.remove(idx);
             }
@@ -2586,5 +2598,47 @@ impl<T: PPGEvaluatorStrategy> PPGEvaluator<T> {
             self.signals.push_back(signal)
         }
         debug!("done adding root signals\n");
+    }
+}
+
+#[cfg(tyberiusprime_pypipegraph2_verif)]
+impl<T: PPGEvaluatorStrategy> PPGEvaluator<T> {
+    /// structured copy of the internal state, for the verification harness
+    pub fn verif_snapshot(&self) -> crate::verif::Snapshot {
+        let mut jobs = Vec::new();
+        for j in self.jobs.iter() {
+            jobs.push((
+                j.job_id.clone(),
+                format!("{:?}", j.state),
+                j.history_output.clone(),
+            ));
+        }
+        let mut edges = Vec::new();
+        for (a, b, w) in self.dag.all_edges() {
+            edges.push((
+                self.jobs[a].job_id.clone(),
+                self.jobs[b].job_id.clone(),
+                format!("{:?}", w.required),
+                format!("{:?}", w.invalidated),
+            ));
+        }
+        edges.sort();
+        let mut ready_to_run: Vec<String> = self.jobs_ready_to_run.iter().cloned().collect();
+        ready_to_run.sort();
+        let mut ready_for_cleanup: Vec<String> =
+            self.jobs_ready_for_cleanup.iter().cloned().collect();
+        ready_for_cleanup.sort();
+        crate::verif::Snapshot {
+            jobs,
+            edges,
+            pending_signals: self.signals.len(),
+            started: match self.already_started {
+                StartStatus::NotStarted => 0,
+                StartStatus::Running => 1,
+                StartStatus::Finished => 2,
+            },
+            ready_to_run,
+            ready_for_cleanup,
+        }
     }
 }
